@@ -539,7 +539,6 @@ def run(ctx):
     except Exception as e:        # noqa  fail closed: hand-written `pinned` + correspondence only
         ctx.extra["translator"] = "translator_fallback: %s: %s" % (type(e).__name__, str(e)[:300])
         ctx.notes.append(ctx.extra["translator"])
-    pq = X.RecPqref(ctx.rng)
     rng = ctx.rng
     ctx.rule = ("datasets: (a) frames of C01 (harness/frames.py: every dtype kind x null patterns, sizes 0..257, optional index incl. "
                 "nullable/tz/categorical index kinds) written by the real writer under the option tuples of harness/rt.py (row-group offsets, "
@@ -565,73 +564,144 @@ def run(ctx):
         sources.append(gen_written(rng))
     for _ in range(12 if ctx.quick() else 150):
         sources.append(gen_spliced(rng))
-    root = os.path.join(ctx.scratch, "w")
-    os.makedirs(root, exist_ok=True)
-    werr = 0
-    from fastparquet import ParquetFile
+    # the real code runs in forked workers (a native crash or a hang is a reported failure of that case, not a dead check);
+    # each worker has its own pqref and scratch directory and records what it would tell the Ctx; the parent replays the
+    # records in job order.  One job = one dataset with all its option tuples (or one corpus case).
+    quick, scratch = ctx.quick(), ctx.scratch
+    jobs = [{"case": c, "seed": rng.randrange(1 << 60)} for c in corpus] + [{"src": src, "seed": rng.randrange(1 << 60)} for src in sources]
+    nfor = 3 if quick else 8
 
-    def one(case, path, orig):
-        if os.environ.get("VERIF_TRACE"):
-            json.dump(case, open(os.environ["VERIF_TRACE"], "w"))
-        st, fails = examine(case, path, pq, ctx)
-        if st == "unopenable":
-            ctx.count("unopenable", case.get("rel", "written") + ": " + fails[0][:60])
-            return
-        n = case["spec"]["n"] if case["source"] != "foreign" else None
-        slim = {k: v for k, v in case.items()}
-        ctx.case(slim, trivial=(n == 0))
-        ctx.count("source", case["source"] + ("/partitioned" if case["source"] == "written" and case["wopts"].get("partition_on") else ""))
-        ctx.count("opt.pandas_nulls", case["pn"])
-        ctx.count("opt.categories", "invalid" if case["ropts"].get("invalid_categories") else type(case["ropts"]["categories"]).__name__)
-        ctx.count("opt.index", "None" if case["ropts"]["index"] is None else type(case["ropts"]["index"]).__name__)
-        ctx.count("opt.columns", "subset" if case["ropts"]["columns"] is not None else "all")
-        ctx.count("opt.dtypes", bool(case["ropts"]["dtypes"]))
-        ctx.count("opt.strip", (case.get("strip") or {}).get("mode"))
-        ctx.count("pandas metadata", "removed on disk" if case.get("nomd") else ("foreign" if case["source"] == "foreign" else ("none (spliced)" if case["source"] == "spliced" else "as written")))
-        ctx.count("status", st)
-        if orig is not None and st == "ok":
-            fails = fails + written_dtype_check(case, orig, path, case["pn"])
-        for cls, det in fails:
-            ctx.fail(cls, slim, det)
+    def work(job):
+        import random
+        from fastparquet import ParquetFile
+        rc = X.RecCtx(quick, scratch)
+        lrng = random.Random(job["seed"])
+        pq = _W["pq"]
+        if pq is None or pq.p.poll() is not None:
+            pq = _W["pq"] = X.RecPqref(lrng, keep=2)
+        pq.rng, pq.sample, pq.seen = lrng, [], 0
+        root = os.path.join(scratch, "w%d" % os.getpid())
+        os.makedirs(root, exist_ok=True)
 
-    for case in corpus:
-        try:
-            path, orig = open_case(case, root)
-        except Exception:       # noqa
-            continue
-        one(case, path, orig)
-    for src in sources:
+        def one(case, path, orig):
+            st, fails = examine(case, path, pq, rc)
+            if st == "unopenable":
+                rc.count("unopenable", case.get("rel", "written") + ": " + fails[0][:60])
+                return
+            n = case["spec"]["n"] if case["source"] != "foreign" else None
+            slim = {k: v for k, v in case.items()}
+            rc.case(slim, (n == 0))
+            rc.count("source", case["source"] + ("/partitioned" if case["source"] == "written" and case["wopts"].get("partition_on") else ""))
+            rc.count("opt.pandas_nulls", case["pn"])
+            rc.count("opt.categories", "invalid" if case["ropts"].get("invalid_categories") else type(case["ropts"]["categories"]).__name__)
+            rc.count("opt.index", "None" if case["ropts"]["index"] is None else type(case["ropts"]["index"]).__name__)
+            rc.count("opt.columns", "subset" if case["ropts"]["columns"] is not None else "all")
+            rc.count("opt.dtypes", bool(case["ropts"]["dtypes"]))
+            rc.count("opt.strip", (case.get("strip") or {}).get("mode"))
+            rc.count("pandas metadata", "removed on disk" if case.get("nomd") else ("foreign" if case["source"] == "foreign" else ("none (spliced)" if case["source"] == "spliced" else "as written")))
+            rc.count("status", st)
+            if orig is not None and st == "ok":
+                fails = fails + written_dtype_check(case, orig, path, case["pn"])
+            for cls, det in fails:
+                rc.fail(cls, slim, det)
+
+        if "case" in job:
+            case = job["case"]
+            try:
+                path, orig = open_case(case, root)
+            except Exception:       # noqa
+                return {"ops": rc.ops, "samples": []}
+            one(case, path, orig)
+            return {"ops": rc.ops, "samples": list(pq.sample)}
+        src = job["src"]
+        if job.get("tuples") is not None:
+            tuples = job["tuples"]          # a crashed job re-run one option tuple at a time
+        else:
+            tuples = None
         try:
             path, orig = open_case(src, root)
         except Exception as e:       # noqa  (a write that raises is allowed: C01/C18)
-            werr += 1
-            ctx.count("write_error", type(e).__name__)
-            continue
+            rc.count("write_error", type(e).__name__)
+            return {"ops": rc.ops, "samples": []}
         try:
             pf0 = ParquetFile(path)
         except Exception as e:       # noqa
-            ctx.count("unopenable", src.get("rel", "written") + ": " + ("%s: %s" % (type(e).__name__, e))[:60])
-            continue
+            rc.count("unopenable", src.get("rel", "written") + ": " + ("%s: %s" % (type(e).__name__, e))[:60])
+            return {"ops": rc.ops, "samples": []}
         if src["source"] == "foreign":
             # a foreign file whose plain full read raises is a decoding matter (C03), not a metadata-vs-read one
             try:
                 pf0.to_pandas()
             except Exception as e:       # noqa
-                ctx.count("unreadable (plain to_pandas() raises: C03)", src["rel"] + ": " + type(e).__name__)
-                continue
-        for k in range(per if src["source"] != "foreign" else (3 if ctx.quick() else 8)):
+                rc.count("unreadable (plain to_pandas() raises: C03)", src["rel"] + ": " + type(e).__name__)
+                return {"ops": rc.ops, "samples": []}
+        if tuples is None:
+            tuples = []
+            for k in range(per if src["source"] != "foreign" else nfor):
+                ro = gen_ropts(lrng, pf0) if k else {"columns": None, "categories": None, "index": None, "dtypes": None, "invalid_categories": False}
+                tuples.append((ro, (lrng.random() < 0.5) if k else True))
+        for ro, pn in tuples:
             case = dict(src)
-            case["ropts"] = gen_ropts(rng, pf0) if k else {"columns": None, "categories": None, "index": None, "dtypes": None, "invalid_categories": False}
-            case["pn"] = (rng.random() < 0.5) if k else True
+            case["ropts"], case["pn"] = ro, pn
+            rc.ops.append(("count", "_tuple", json.dumps([ro, pn], sort_keys=True)))
             one(case, path, orig)
-    X.kernel_crosscheck(ctx, pq)
-    pq.close()
+        return {"ops": rc.ops, "samples": list(pq.sample), "tuples": tuples}
+
+    def split(job):
+        # re-run a crashed dataset one option tuple at a time: the tuples are regenerated from the job's seed
+        if "case" in job:
+            return [job]
+        import random
+        try:
+            from fastparquet import ParquetFile
+            tmp = os.path.join(scratch, "split")
+            os.makedirs(tmp, exist_ok=True)
+            path, _ = open_case(job["src"], tmp)
+            pf0 = ParquetFile(path)
+            lrng = random.Random(job["seed"])
+            tuples = []
+            for k in range(per if job["src"]["source"] != "foreign" else nfor):
+                ro = gen_ropts(lrng, pf0) if k else {"columns": None, "categories": None, "index": None, "dtypes": None, "invalid_categories": False}
+                tuples.append((ro, (lrng.random() < 0.5) if k else True))
+        except Exception:       # noqa
+            return [job]
+        return [{"src": job["src"], "seed": job["seed"], "tuples": [t]} for t in tuples]
+
+    def describe(job):
+        if "case" in job:
+            return job["case"]
+        if job.get("tuples") and len(job["tuples"]) == 1:
+            c = dict(job["src"])
+            c["ropts"], c["pn"] = job["tuples"][0]
+            return c
+        return {"dataset": job["src"], "seed": job["seed"], "all_option_tuples_of_seed": True}
+
+    def crash_cls(job, r):
+        src = job.get("src") or job.get("case") or {}
+        ro = (job["tuples"][0][0] if job.get("tuples") and len(job["tuples"]) == 1 else (job.get("case") or {}).get("ropts")) or {}
+        return {"component": "native-crash", "what": "crash" if "died" in r["__crashed__"] else ("hang" if "timeout" in r["__crashed__"].lower() else "harness-exception"),
+                "source": src.get("source"), "file": src.get("rel"), "invalid_categories": bool(ro.get("invalid_categories"))}
+
+    samples = X.run_jobs(ctx, work, jobs, init=_winit, split=split, crash_cls=crash_cls, describe=describe, nproc=4, job_timeout=300)
+    ctx.dist.pop("_tuple", None)
+    X.kernel_crosscheck_samples(ctx, samples)
+    werr = sum(ctx.dist.get("write_error", {}).values())
     ctx.extra["write_errors"] = werr
     if werr > len(sources) // 4:
         ctx.obligation("generator health: fewer than 25% of the generated frames fail to write", False, "%d of %d" % (werr, len(sources)))
 
 
+_W = {"pq": None}
+
+
+def _winit():
+    _W["pq"] = None
+
+
 def replay(rep):
+    """Rebuild the recorded dataset, re-run the recorded option tuple(s) and the oracle - in a forked worker, so that an
+    input the real code does not survive is reported instead of killing the replay."""
+    import random
     import tempfile
     if rep.get("kind") == "no-failing-input-found":
         print(json.dumps(rep, indent=1)[:6000])
@@ -639,22 +709,50 @@ def replay(rep):
     C.use_shadow()
     case = rep["case"]
     tmp = tempfile.mkdtemp(prefix="verif-C17-replay-", dir="/tmp")
+
+    def job(case):
+        from fastparquet import ParquetFile
+        out = []
+        if "dataset" in case:        # a whole dataset whose worker died: every option tuple of the recorded seed
+            src = case["dataset"]
+            path, orig = open_case(src, tmp)
+            pf0 = ParquetFile(path)
+            lrng = random.Random(case["seed"])
+            cases = []
+            for k in range(8):
+                ro = gen_ropts(lrng, pf0) if k else {"columns": None, "categories": None, "index": None, "dtypes": None, "invalid_categories": False}
+                c = dict(src)
+                c["ropts"], c["pn"] = ro, ((lrng.random() < 0.5) if k else True)
+                cases.append(c)
+        else:
+            path, orig = open_case(case, tmp)
+            cases = [case]
+        for c in cases:
+            st, fails = examine(c, path)
+            if orig is not None and st == "ok":
+                fails = fails + written_dtype_check(c, orig, path, c["pn"])
+            out.append((c, st, fails))
+        return out
     try:
-        path, orig = open_case(case, tmp)
-        st, fails = examine(case, path)
-        if orig is not None and st == "ok":
-            fails = fails + written_dtype_check(case, orig, path, case["pn"])
-        print("dataset: %s; read options %s; pandas_nulls=%s; strip=%s" % (
-            case.get("rel") or ("%s frame n=%d kinds=%s extra=%s nomd=%s nested=%s wopts=%s" % (case["source"], case["spec"]["n"], [c["kind"] for c in case["spec"]["cols"]],
-                                                                                                  [x["kind"] for x in case.get("extra") or []], case.get("nomd"), case.get("fields"), case["wopts"])),
-            case["ropts"], case["pn"], case.get("strip")))
-        if st != "ok":
-            print("status:", st, fails if st == "unopenable" else "")
-            return 0
-        for cls, det in fails:
-            print("PROPERTY FAILS [%s/%s]: %s" % (cls["component"], cls["what"], det))
-        if not fails:
-            print("property holds on this input now")
-        return 1 if fails else 0
+        res = C.pmap(job, [case], nproc=1, job_timeout=300)[0]
+        if isinstance(res, dict) and "__crashed__" in res:
+            print("dataset: %s" % (json.dumps(case)[:600]))
+            print("PROPERTY FAILS [native-crash]: the real code does not survive this input: %s %s" % (res["__crashed__"], res.get("tb", "")[-400:]))
+            return 1
+        bad = 0
+        for c, st, fails in res:
+            print("dataset: %s; read options %s; pandas_nulls=%s; strip=%s" % (
+                c.get("rel") or ("%s frame n=%d kinds=%s extra=%s nomd=%s nested=%s wopts=%s" % (c["source"], c["spec"]["n"], [x["kind"] for x in c["spec"]["cols"]],
+                                                                                                  [x["kind"] for x in c.get("extra") or []], c.get("nomd"), c.get("fields"), c["wopts"])),
+                c["ropts"], c["pn"], c.get("strip")))
+            if st != "ok":
+                print("status:", st, fails if st == "unopenable" else "")
+                continue
+            for cls, det in fails:
+                print("PROPERTY FAILS [%s/%s]: %s" % (cls["component"], cls["what"], det))
+            if not fails:
+                print("property holds on this input now")
+            bad += len(fails)
+        return 1 if bad else 0
     finally:
         shutil.rmtree(tmp, ignore_errors=True)
